@@ -13,6 +13,7 @@ import (
 	"os"
 	"path/filepath"
 	"runtime/debug"
+	"strings"
 	"testing"
 
 	"github.com/openGemini/openGemini/lib/config"
@@ -565,7 +566,7 @@ func (r *c07Runner) runChunk(c *c07Case, s *c07Series, maxRows int) {
 	}()
 	if pan != "" {
 		kind := "encoder_panic"
-		if c07BothInf(s) {
+		if c07BothInf(s) && strings.Contains(pan, "lib/compress.(*Float)") {
 			kind = "float_encoder_panic_pos_and_neg_inf"
 		}
 		rep.Violation(kind, c.key(), pan, c)
@@ -669,7 +670,7 @@ func (r *c07Runner) runFile(c *c07Case) {
 			if p := recover(); p != nil {
 				kind, detail = "file_writer_panic", fmt.Sprintf("%v\n%s", p, c07Stack())
 				for _, s := range series {
-					if c07BothInf(s) {
+					if c07BothInf(s) && strings.Contains(detail, "lib/compress.(*Float)") {
 						kind = "float_encoder_panic_pos_and_neg_inf"
 					}
 				}
@@ -922,10 +923,10 @@ func TestVerifC07File(t *testing.T) {
 	}
 	// Part C: real files - every schema of <= 3 typed columns x row sets x 1|3 series x null rotations x chunk-meta modes
 	modes := []int{ChunkMetaCompressNone, ChunkMetaCompressSelf}
-	rots := []int{0, 1, 4}
+	rots := []int{0, 1, 4, 6}
 	if thorough {
 		modes = []int{ChunkMetaCompressNone, ChunkMetaCompressSnappy, ChunkMetaCompressLZ4, ChunkMetaCompressSelf}
-		rots = []int{0, 1, 2, 3, 4}
+		rots = []int{0, 1, 2, 3, 4, 5, 6, 7}
 	}
 	for si := 0; si < gen.NumSchemas(3); si++ {
 		for ri := range c07RowSets {
